@@ -951,20 +951,18 @@ Lemma lower_ascii_app a b : lower_ascii (a ++ b) = lower_ascii a ++ lower_ascii 
 Proof. apply map_app. Qed.
 
 (* a deployer who follows the documentation (variable SSO_CONFIG_<SERVICE>_SIGNING_KEY, name in upper
-   case) gets the key — PROVIDED the cleaned service name has no upper-case letter *)
+   case) gets the key, whatever the case of the service name (needed a lower-case name before c723740) *)
 Theorem hmac_config_found algs service spec :
-  lower_ascii (clean_ws service) = clean_ws service ->
   hmac_of_config algs service [(upper_ascii (clean_ws service ++ signing_key_suffix), spec)] = generate_hmac algs spec.
 Proof.
-  intros H. unfold hmac_of_config, env_vars. simpl.
-  rewrite lower_upper_ascii, lower_ascii_app, H.
+  unfold hmac_of_config, env_vars. simpl.
+  rewrite lower_upper_ascii, lower_ascii_app.
   change (lower_ascii signing_key_suffix) with signing_key_suffix. rewrite str_eqb_refl. reflexivity.
 Qed.
 
 Definition s_mysvc : str := [77;121;83;118;99]. (* "MySvc" *)
 Definition s_sha256 : str := [115;104;97;50;53;54]. (* "sha256" *)
-(* ... and silently gets no HMAC at all otherwise (known finding C12-K3) *)
+(* the former witness of C12-K3 (HmacOff before c723740) now finds its key *)
 Lemma hmac_config_case_witness :
-  hmac_of_config [s_sha256] s_mysvc [(upper_ascii (clean_ws s_mysvc ++ signing_key_suffix), s_sha256 ++ 58 :: s_x)] = HmacOff /\
-  generate_hmac [s_sha256] (s_sha256 ++ 58 :: s_x) = HmacOn s_x.
-Proof. split; vm_compute; reflexivity. Qed.
+  hmac_of_config [s_sha256] s_mysvc [(upper_ascii (clean_ws s_mysvc ++ signing_key_suffix), s_sha256 ++ 58 :: s_x)] = HmacOn s_x.
+Proof. vm_compute. reflexivity. Qed.
